@@ -72,7 +72,8 @@ impl SuspenseScope {
         create_effect(move || {
             if !self._is_loading() {
                 if let Some(tx) = tx.take() {
-                    tx.send(()).unwrap();
+                    // Whoever was waiting may have given up in the meantime.
+                    let _ = tx.send(());
                 }
             }
         });
